@@ -13,3 +13,15 @@ cd /verif && VERIF_REPO="$wt" VERIF_BUILD_TAG="mut_$1_$id" VERIF_EVIDENCE_DIR=/t
 git -C /repo worktree remove --force "$wt"; rm -rf /tmp/wt/ev_$$
 echo "$1 vs $id ($tier): rc=$rc  $(grep -c '^VIOLATION' $log) VIOLATION line(s)"
 grep -E "violating case|^VIOLATION|machinery" $log | head -5 | cut -c1-300
+/venv/bin/python - "$1" "$id" "$tier" "$rc" <<'PY'
+import json, sys
+m, cid, tier, rc = sys.argv[1:5]
+p = '/verif/seeded/%s/meta.json' % m
+d = json.load(open(p))
+det = d.get('detected_by')
+if not isinstance(det, dict):
+    det = {}
+det['%s %s' % (cid, tier)] = {'1': 'VIOLATION', '0': 'missed'}.get(rc, 'machinery failure rc=' + rc)
+d['detected_by'] = det
+json.dump(d, open(p, 'w'), indent=1)
+PY
